@@ -360,7 +360,8 @@ class CompiledSimulation(object):
         if isinstance(wv, (Input, Output)):
             return True
         for net in self.block.logic:
-            if net.op == 'w' and net.args[0].name == wv.name and isinstance(net.dests[0], Output):
+            if (net.op == 'w' and net.args[0].name == wv.name and isinstance(net.dests[0], Output)
+                    and net.dests[0].bitwidth == wv.bitwidth):  # a narrower Output would truncate
                 self._probe_mapping[wv.name] = net.dests[0].name
                 return True
         return False
